@@ -6,6 +6,7 @@ pub mod c04;
 pub mod c05;
 pub mod c11;
 pub mod c16;
+pub mod c17;
 pub mod c18;
 pub mod c20;
 pub mod evalutil;
@@ -19,6 +20,7 @@ pub fn lookup(id: &str) -> Option<&'static dyn Prop> {
         "C05" => &c05::C05,
         "C11" => &c11::C11,
         "C16" => &c16::C16,
+        "C17" => &c17::C17,
         "C18" => &c18::C18,
         "C20" => &c20::C20,
         _ => return None,
